@@ -839,7 +839,7 @@ class Gen:
             if c.kind == "replace":
                 # listed call-syntax rewrites (E8 checked arithmetic, E9 dependency inlining, E11 std adapter -> shim fn, E12 eta)
                 rule, anchor, nth = c.args[0], c.args[1], int(c.args[2])
-                if rule not in ("E8", "E9", "E11", "E12"):
+                if rule not in ("E8", "E9", "E11", "E12", "E17"):
                     raise SystemExit(f"{self.spec_path}:{c.line}: @replace rule {rule} not allowed")
                 atoks = [t.text for t in rs.sig(rs.tokenize(anchor))]
                 hits = []
